@@ -378,8 +378,13 @@ def subdivide_loop(vertices, faces, iterations=None):
             np.add.at(boundary_sum, bound_edges[:, 0], vertices[bound_edges[:, 1]])
             np.add.at(boundary_sum, bound_edges[:, 1], vertices[bound_edges[:, 0]])
 
+            # a vertex where two open fans meet has four boundary edges:
+            # use the mean of its boundary neighbors so that the weights
+            # sum to one (the same 1/8 each for the usual two neighbors)
+            boundary_count = np.bincount(bound_edges.ravel(), minlength=len(vertices))
             even[vrt_bound_mask] = (
-                boundary_sum[vrt_bound_mask] / 8.0
+                boundary_sum[vrt_bound_mask]
+                / (4.0 * boundary_count[vrt_bound_mask].reshape((-1, 1)))
                 + (3.0 / 4.0) * vertices[vrt_bound_mask]
             )
 
